@@ -59,6 +59,20 @@ def _nd(node, out, ml=False):
         out.append(repr(node))
 
 
+def _comments(src):
+    """Comment tokens (right-stripped) of a text, tokenized line-tolerantly; None if it cannot be tokenized."""
+    import io
+    import tokenize
+    out = []
+    try:
+        for t in tokenize.generate_tokens(io.StringIO(src).readline):
+            if t.type == tokenize.COMMENT:
+                out.append(t.string.rstrip())
+    except (tokenize.TokenError, SyntaxError, IndentationError):
+        return None
+    return out
+
+
 def parse_standalone(ret):
     """Parse ret.src on its own with harness wrappers; returns a pure AST comparable with ret.a, or None."""
     src = ret.src
@@ -374,6 +388,14 @@ class C07(Plugin):
         if ctx.get('in_fstr'):
             run.stats['fstring_internal_piece_skipped'] += 1
             return
+        # faithful extraction never invents a comment: every COMMENT token of the piece is a COMMENT token of the source
+        from collections import Counter
+        pc, sc = _comments(ret.src), _comments(ctx['src'])
+        if pc is not None and sc is not None:
+            extra = Counter(pc) - Counter(sc)
+            if extra:
+                raise Violation('piece_has_comment_not_in_source', f'{sorted(extra)[:3]!r} piece={ret.src[:300]!r}')
+            run.stats['piece_comment_checks'] += 1
         norm_off = opts.get('norm_get') is False or (opts.get('norm') is False and opts.get('norm_get') is None)
         p = parse_standalone(ret)
         if norm_off and p != 'unparsable':
